@@ -1,1 +1,40 @@
-fn main(){}
+//! verif-harness: property-based checks of ark-bulletproofs (see /verif/DESIGN.md).
+//!
+//!   verif-harness <ID> <quick|thorough>        run the check, write evidence/<ID>.json
+//!   verif-harness replay <ID> <file>            re-execute one saved case
+#![allow(clippy::too_many_arguments, clippy::type_complexity)]
+
+pub mod choices;
+pub mod curves;
+pub mod drive;
+pub mod mirror;
+pub mod model;
+pub mod program;
+pub mod props;
+pub mod runner;
+pub mod scalars;
+pub mod tlog;
+
+fn main() {
+    drive::install_panic_hook();
+    let args: Vec<String> = std::env::args().collect();
+    let seed: u64 = std::env::var("VERIF_SEED").ok().and_then(|s| s.parse().ok()).unwrap_or(0);
+    if args.len() >= 4 && args[1] == "replay" {
+        std::process::exit(props::replay(&args[2], &args[3]));
+    }
+    if args.len() < 2 {
+        eprintln!("usage: verif-harness <ID> <quick|thorough> | replay <ID> <file>");
+        std::process::exit(2);
+    }
+    let tier = args
+        .get(2)
+        .cloned()
+        .or_else(|| std::env::var("VERIF_TIER").ok())
+        .unwrap_or_else(|| "quick".into());
+    if tier != "quick" && tier != "thorough" {
+        eprintln!("unknown tier {}", tier);
+        std::process::exit(2);
+    }
+    let code = props::run(&args[1], &tier, seed);
+    std::process::exit(code);
+}
